@@ -208,17 +208,7 @@ func init() {
 		}
 	}
 	reg("bytes.Equal", "element-wise equality of equal-length slices", func(ex *Exec, st *State, c *ast.CallExpr, r *Value, a []Value) []Value {
-		x, y := a[0], a[1]
-		bt := types.Typ[types.Byte]
-		lf := leavesOf(bt)[0]
-		ax := st.regionArr(bt, lf, x.L[".ref"])
-		ay := st.regionArr(bt, lf, y.L[".ref"])
-		j := freshVar("j", sortInt)
-		body := mkImplies(mkAnd(mkCmp("le", mkInt(sortInt, 0), j), mkCmp("lt", j, x.L[".len"])),
-			mkEq(mkSelect(ax, idxAdd(x.L[".off"], j)), mkSelect(ay, idxAdd(y.L[".off"], j))))
-		res := freshVar("bytesEqual", sortBool)
-		st.assume(mkEq(res, mkAnd(mkEq(x.L[".len"], y.L[".len"]), mkQuant("forall", []*Term{j}, body))))
-		return []Value{boolV(res)}
+		return []Value{boolV(bytesEqualTerm(st, a[0], a[1]))}
 	})
 	reg("errors.New", "a non-nil error", nonNilErr)
 	reg("fmt.Errorf", "a non-nil error", nonNilErr)
@@ -518,6 +508,7 @@ func init() {
 		st.assume(mkEq(mkApp("aead!keyref", sortRef, aead), key.L[".ref"]))
 		st.assume(mkEq(mkApp("aead!keyoff", sortInt, aead), key.L[".off"]))
 		st.assume(mkEq(mkApp("aead!keylen", sortInt, aead), key.L[".len"]))
+		st.assume(mkEq(mkApp("aead!keycap", sortInt, aead), key.L[".cap"]))
 		if ns, ok := a[2].L[""]; ok && !(ns.isConst() && ns.Val.Int64() == 16) {
 			unsupp("NewAEAD with a nonce size other than the constant 16")
 		}
@@ -566,4 +557,18 @@ func c2tN(ex *Exec, c *ast.CallExpr, i int) types.Type {
 		return tup.At(i).Type()
 	}
 	return t
+}
+
+// bytesEqualTerm: an application term (so that two evaluations on the same state agree) defined by the pointwise formula.
+func bytesEqualTerm(st *State, x, y Value) *Term {
+	bt := types.Typ[types.Uint8]
+	lf := leavesOf(bt)[0]
+	ax := st.regionArr(bt, lf, x.L[".ref"])
+	ay := st.regionArr(bt, lf, y.L[".ref"])
+	res := mkApp("bytes.Equal", sortBool, ax, x.L[".off"], x.L[".len"], ay, y.L[".off"], y.L[".len"])
+	j := freshVar("j", sortInt)
+	body := mkImplies(mkAnd(mkCmp("le", mkInt(sortInt, 0), j), mkCmp("lt", j, x.L[".len"])),
+		mkEq(mkSelect(ax, idxAdd(x.L[".off"], j)), mkSelect(ay, idxAdd(y.L[".off"], j))))
+	st.assume(mkEq(res, mkAnd(mkEq(x.L[".len"], y.L[".len"]), mkQuant("forall", []*Term{j}, body))))
+	return res
 }
